@@ -1,5 +1,33 @@
 """C38 — wallet persists its accounts and only opens them with the current password (spec/Wallet.tla)."""
+import random
+import traceback
+import threading
 import _wallet as wl
+
+
+def conc_model(ctx, edges, inits, dev, conc, job):
+    """two client threads on one ClientImpl, model side: prepared wallets (reachable states of run B), the spec self-test
+    (TLC must reject the model in which a check and its act are separate lock segments), TLC over every interleaving of
+    the lock segments of two calls with edge export, and the choice of the pairs to run on the real wallet"""
+    T = ctx.thorough
+    rng = random.Random(ctx.seed)
+    kwc = dict(import_ids=[1], new_ids=[2], labels=["", "x"], wscrypt="low", max_obj=3, schemes=["SHA256withECDSA"])
+    seeds = wl.pick_seeds(ctx, edges, inits, 24 if T else 8, rng)
+    conc["split_rejected"] = wl.split_selftest(ctx, seeds[:4], dev, kwc, ["Delete", "ChangePassword", "SetDefault", "SetLabel"] if T else ["Delete"])
+    mc = wl.tlc_conc(ctx, seeds, dev, kwc)
+    if mc:
+        cases, n_inter, n_comm, names = wl.conc_cases(ctx, seeds, mc[1], mc[2], 1200 if T else 180, rng)
+        ctx.log("two threads: %d interfering + %d commuting ordered pairs in the model, %d chosen (%d operation-name pairs)"
+                % (n_inter, n_comm, len(cases), len(names)))
+        conc.update({"seeds": len(seeds), "model_interfering_pairs": n_inter, "model_commuting_pairs": n_comm})
+        job.update(seeds=seeds, cases=cases, kw=kwc)
+
+
+def conc_model_guarded(ctx, *a):
+    try:
+        conc_model(ctx, *a)
+    except Exception:
+        ctx.infra("two-thread model side crashed: %s" % traceback.format_exc()[-800:])
 
 
 def run(ctx):
@@ -11,6 +39,8 @@ def run(ctx):
                   wscrypt="low", max_obj=3, max_ops=6 if T else 5, acts=wl.ALL_ACTS + wl.FAULTS)
     npaths = nsteps = 0
     runs = []
+    conc_thread = None
+    conc, conc_job = {}, {}
     if dev is not None:
         ctx.log("deviations exhibited by the tree under test: %s" % dev)
         dup = dev["DupAddrImport"]
@@ -37,6 +67,10 @@ def run(ctx):
             if not mc:
                 continue
             r, edges, inits = mc
+            if tag == "B" and not dev["DupAddrImport"] and not dev["NewIgnoresWalletScrypt"]:
+                # the two-thread model is checked by TLC in the background while runs C and D are replayed
+                conc_thread = threading.Thread(target=conc_model_guarded, args=(ctx, edges, inits, dev, conc, conc_job))
+                conc_thread.start()
             paths, ncov = ctx.cover(edges, inits, max_len=60 if sim else 40)
             ctx.log("run %s: cover %d paths, %d steps, %d/%d edges" % (tag, len(paths), sum(len(p["steps"]) for p in paths), ncov, len(edges)))
             all_ids = sorted(kw["import_ids"] + kw["new_ids"])
@@ -46,11 +80,27 @@ def run(ctx):
             nsteps += n
             if paths and len(ctx.samples) < 4:
                 ctx.samples.append({"run": tag, "replayed_path": [s["act"] for s in paths[0]["steps"][:6]]})
+        # 3. two client threads on one ClientImpl (the model side was started after run B, see conc_model): the chosen
+        #    pairs run on the real wallet from two goroutines (B issued while A is inside its first lock segment)
+        if conc_thread:
+            conc_thread.join()
+            if "cases" not in conc_job and not ctx.infra_errors:
+                ctx.infra("two-thread model side produced no pairs")
+            if "cases" in conc_job:
+                seeds, cases, kwc = conc_job["seeds"], conc_job["cases"], conc_job["kw"]
+                conc.update(wl.replay_conc(ctx, binary, seeds, cases, kwc))
+                ctx.log("two threads on the real wallet: %s" % conc)
+                npaths += conc.get("attempts", 0)
+                if cases:
+                    c = cases[0]
+                    ctx.samples.append({"run": "two-threads", "prefix": [x["name"] for x in seeds[c["seed"]]["prefix"]], "thread1": c["a"], "thread2": c["b"],
+                                        "model_outcomes": [[ra, rb] for ra, rb, _ in c["allowed"].values()]})
     ctx.finish("model_checking", {
         "states": ctx.stats["states"], "transitions": ctx.stats["transitions"],
         "traces_validated_against_impl": npaths, "replayed_steps": nsteps,
         "deviations_probed": dev, "runs": [{"run": t, **{k: v for k, v in kw.items()}} for t, kw, _, _ in runs],
-        "exhaustive": True,
-    }, ["ECDSA P-256 accounts; scrypt N=16,r=1,p=1 stands for a wallet with its own (non-default) parameters; run C uses the library default",
+        "exhaustive": True, "two_threads": conc,
+    }, ["two client threads: B is issued while A is inside its first lock segment (observed on sync.RWMutex's state words, window = one scrypt derivation N=2048,r=8); no hook, so an interleaving inside a segment without key derivation is only met by chance",
+        "ECDSA P-256 accounts; scrypt N=16,r=1,p=1 stands for a wallet with its own (non-default) parameters; run C uses the library default",
         "save() failures are injected by making <wallet>~ a directory (SetFault/ClearFault); other I/O faults (torn writes, rename failure) are not",
         "imported accounts are encrypted under the wallet's scrypt parameters (what `account import` checks)"])
